@@ -52,7 +52,7 @@ try:
                           'first': (viol[0][:300] if viol else (und[0][:300] if und else '')),
                           'reproduced_natively': any('no-failing-input-found' not in l for l in viol)}
             meta['detection'] = res
-            meta['detected'] = any(v['exit'] == 1 for v in res.values())
+            meta['detected'] = any(v['exit'] == 1 and v['violations'] > 0 for v in res.values())
             meta.pop('result', None)
         finally:
             subprocess.check_call(['git', '-C', repo, 'checkout', '--', '.'])
